@@ -63,6 +63,23 @@ theorem C19_trace (c : RestConf) : trace (buildMiddleware c) = specTrace c := by
   · simp only [hl, Bool.false_eq_true, ↓reduceIte, trace_wrapAll, trace]
     simp [List.map_reverse, Function.comp_def]
 
+/-- logging is transparent: for every configuration and every answer of the base transport, the chain
+    with logging returns what the chain without logging returns, except that a response accompanied
+    by an error is replaced by nil (LoggingMiddleware's `return nil, err`) -/
+theorem C19_logging_transparent (c : RestConf) (o : RTOut) :
+    roundTrip (buildMiddleware { c with enableLogging := true }) o
+      = dropRespOnErr (roundTrip (buildMiddleware { c with enableLogging := false }) o) := by
+  simp only [buildMiddleware, ↓reduceIte, Bool.false_eq_true, roundTrip, roundTrip_wrapAll]
+  cases o <;> rfl
+
+/-- the whole chain as a function of the base transport's answer -/
+theorem C19_roundTrip (c : RestConf) (o : RTOut) :
+    roundTrip (buildMiddleware c) o = specRoundTrip c o := by
+  unfold buildMiddleware specRoundTrip
+  by_cases hl : c.enableLogging
+  · simp only [hl, ↓reduceIte, roundTrip, roundTrip_wrapAll]; cases o <;> rfl
+  · simp only [hl, Bool.false_eq_true, ↓reduceIte, roundTrip_wrapAll, roundTrip]
+
 /-- headline: for every history of `Register`/`NewRest` calls started on the empty registry, each
     under `recover()`: `Register T` panics iff T was registered earlier in the history; `NewRest T`
     panics iff it was not, and otherwise returns the constructor of T's (only successful)
